@@ -230,6 +230,10 @@ impl CompactionWorker {
             background_work_finished_signal,
             ..
         } = db_state;
+
+        #[cfg(feature = "verif")]
+        crate::verif::pause("compact.begin", &[]);
+
         let mut db_fields_guard = guarded_db_fields.lock();
 
         if is_shutting_down.load(Ordering::Acquire) {
@@ -339,6 +343,18 @@ impl CompactionWorker {
 
         let mut has_compaction_error = false;
         if let Some(mut compaction_manifest) = maybe_compaction_manifest {
+            #[cfg(feature = "verif")]
+            crate::verif::note(
+                "compaction.pick",
+                &[
+                    compaction_manifest.level() as u64,
+                    compaction_manifest.get_compaction_level_files().len() as u64,
+                    compaction_manifest.get_parent_level_files().len() as u64,
+                    is_manual_compaction as u64,
+                    (!is_manual_compaction && compaction_manifest.is_trivial_move()) as u64,
+                ],
+            );
+
             if !is_manual_compaction && compaction_manifest.is_trivial_move() {
                 // A trivial move can be performed to complete the compaction i.e. we just need to
                 // move the file to the next level
@@ -532,6 +548,9 @@ impl CompactionWorker {
         db_state
             .has_immutable_memtable
             .store(false, Ordering::Release);
+
+        #[cfg(feature = "verif")]
+        crate::verif::note("imm.drop", &[]);
         DB::remove_obsolete_files(
             db_fields_guard,
             db_state.options.filesystem_provider(),
@@ -614,6 +633,9 @@ impl CompactionWorker {
 
                 while file_iterator.is_valid() && !db_state.is_shutting_down.load(Ordering::Acquire)
                 {
+                    #[cfg(feature = "verif")]
+                    crate::verif::pause("compact.step", &[]);
+
                     if db_state.has_immutable_memtable.load(Ordering::Acquire) {
                         // Prioritize compacting an immutable memtable if there is one
                         let memtable_compaction_start = Instant::now();
